@@ -32,12 +32,13 @@ def main():
     pid = sys.argv[1]
     suffix = sys.argv[2] if len(sys.argv) > 2 else ""
     only_checks = sys.argv[3].split(",") if len(sys.argv) > 3 else None
-    src = "/tmp/seed-%s/seed" % pid
+    src = os.environ.get("SEED_SRC", "/tmp/seed-%s/seed" % pid)
+    offset = int(os.environ.get("SEED_LETTER_OFFSET", "0"))
     patch = os.path.join(src, "patch%s.diff" % suffix)
     demo = os.path.join(src, "demo%s.c" % suffix)
     bld = os.path.join(src, "build-demo%s.sh" % suffix)
     meta = os.path.join(src, "meta%s.json" % suffix)
-    letter = "abcdefgh"[int(suffix) - 1] if suffix else "a"
+    letter = "abcdefghijklmnop"[(int(suffix) - 1 if suffix else 0) + offset]
     sid = "%s%s" % (pid, letter)
     dest = os.path.join(VERIF, "seeded", sid)
     if not os.path.exists(patch) and os.path.exists(os.path.join(dest, "patch.diff")):
